@@ -103,6 +103,8 @@ type SConn struct {
 
 	ready      chan struct{}
 	readerGone atomic.Bool
+	// NoPingAck: from now on the client's PINGs are recorded but not acknowledged (a server gone silent)
+	NoPingAck atomic.Bool
 	hsErr      error
 	wmu        sync.Mutex
 	wrote      []Wrote
@@ -488,7 +490,7 @@ func (c *SConn) readLoop() {
 			k := "ping"
 			if g.IsAck() {
 				k = "pingack"
-			} else {
+			} else if !c.NoPingAck.Load() {
 				_ = c.Write(rawframe.Append(nil, rawframe.Ping, rawframe.FlagAck, 0, g.Data[:]))
 			}
 			c.add(peer.Event{Kind: k, Ping: g.Data})
@@ -771,7 +773,7 @@ func (e *Env) Quiesce() (bool, string) {
 		} else {
 			time.Sleep(30 * time.Microsecond)
 			if i%256 == 0 && time.Now().After(deadline) {
-				return false, s.String()
+				return false, peer.WithDeadlockEvidence(s.String())
 			}
 		}
 	}
